@@ -270,6 +270,10 @@ pub(crate) struct Span {
 
 struct Lexer {
     chars: Vec<char>,
+    // byte offset in the source of every char (plus the source length at the end): the lexer
+    // walks chars, but everything that leaves it (token spans, error positions) is in bytes, which
+    // is what diagnostics, line lookup and editor queries use
+    byte_offsets: Vec<usize>,
     index: usize,
 
     tokens: Vec<Token>,
@@ -277,10 +281,22 @@ struct Lexer {
 
 impl Lexer {
     fn new(source: &str) -> Self {
+        let mut byte_offsets: Vec<usize> = source.char_indices().map(|(i, _)| i).collect();
+        byte_offsets.push(source.len());
         Lexer {
             chars: source.chars().collect(),
+            byte_offsets,
             index: 0,
             tokens: vec![],
+        }
+    }
+
+    /// span in bytes of the chars `lo..hi`
+    fn span(&self, lo: usize, hi: usize) -> Span {
+        let last = self.byte_offsets.len() - 1;
+        Span {
+            lo: self.byte_offsets[lo.min(last)],
+            hi: self.byte_offsets[hi.min(last)],
         }
     }
 
@@ -303,20 +319,14 @@ impl Lexer {
 
     fn emit(&mut self, kind: TokenKind) {
         let len = kind.nchars();
-        let span = Span {
-            lo: self.index,
-            hi: self.index + len,
-        };
+        let span = self.span(self.index, self.index + len);
         self.tokens.push(Token { kind, span });
         self.index += len;
     }
 
     fn emit_with_skipped(&mut self, kind: TokenKind, skipped_chars: usize) {
         let len = kind.nchars() + skipped_chars;
-        let span = Span {
-            lo: self.index,
-            hi: self.index + len,
-        };
+        let span = self.span(self.index, self.index + len);
         self.tokens.push(Token { kind, span });
         self.index += len;
     }
@@ -519,7 +529,9 @@ pub(crate) fn tokenize_file(ctx: &mut StaticsContext, file_id: FileId) -> Vec<To
                         Some(c) => (c, c + 1),
                         None => (n_off, n_off),
                     };
-                let s = process_escapes_into(lexer.slice(1, content_end), ctx, file_id);
+                let s = process_escapes_into(lexer.slice(1, content_end), ctx, file_id, |p| {
+                    lexer.span(open + 1 + p, open + 1 + p + 2)
+                });
                 emit_string_token(&mut lexer, s, open, open + after_close);
             }
             '\'' => {
@@ -530,7 +542,9 @@ pub(crate) fn tokenize_file(ctx: &mut StaticsContext, file_id: FileId) -> Vec<To
                         Some(c) => (c, c + 1),
                         None => (n_off, n_off),
                     };
-                let s = process_escapes_into(lexer.slice(1, content_end), ctx, file_id);
+                let s = process_escapes_into(lexer.slice(1, content_end), ctx, file_id, |p| {
+                    lexer.span(open + 1 + p, open + 1 + p + 2)
+                });
                 emit_string_token(&mut lexer, s, open, open + after_close);
             }
             '/' => {
@@ -569,7 +583,10 @@ pub(crate) fn tokenize_file(ctx: &mut StaticsContext, file_id: FileId) -> Vec<To
             }
             _ => {
                 ctx.errors
-                    .push(Error::UnrecognizedToken(file_id, lexer.index));
+                    .push(Error::UnrecognizedToken(
+                        file_id,
+                        lexer.span(lexer.index, lexer.index + 1),
+                    ));
                 lexer.index += 1;
             }
         }
@@ -609,10 +626,15 @@ fn scan_for_unescaped_delim(
     None
 }
 
-// Process escape sequences in offsets [start..end], appending decoded chars to `s`.
-fn process_escapes_into(chars: &[char], ctx: &mut StaticsContext, file_id: FileId) -> String {
+// Process escape sequences in `chars`. `locate(p)` gives the source span to blame for the escape
+// sequence that starts at `chars[p]`.
+fn process_escapes_into(
+    chars: &[char],
+    ctx: &mut StaticsContext,
+    file_id: FileId,
+    locate: impl Fn(usize) -> Span,
+) -> String {
     let mut s = "".to_string();
-    let base = 0;
     let mut p = 0;
     let end = chars.len();
     while p < end
@@ -639,21 +661,12 @@ fn process_escapes_into(chars: &[char], ctx: &mut StaticsContext, file_id: FileI
                         p += 4;
                         continue;
                     }
-                    ctx.errors.push(Error::UnrecognizedEscapeSequence(
-                        file_id,
-                        Span {
-                            lo: base + p,
-                            hi: base + p + 1,
-                        },
-                    ));
+                    ctx.errors
+                        .push(Error::UnrecognizedEscapeSequence(file_id, locate(p)));
                 }
-                _ => ctx.errors.push(Error::UnrecognizedEscapeSequence(
-                    file_id,
-                    Span {
-                        lo: base + p,
-                        hi: base + p + 1,
-                    },
-                )),
+                _ => ctx
+                    .errors
+                    .push(Error::UnrecognizedEscapeSequence(file_id, locate(p))),
             }
             p += 2;
         } else {
@@ -799,14 +812,21 @@ fn handle_multiline_string(lexer: &mut Lexer, ctx: &mut StaticsContext, file_id:
         }
     }
 
-    let string_val = process_escapes_into(&string_val.chars().collect::<Vec<_>>(), ctx, file_id);
-    emit_string_token(lexer, string_val, lo, lexer.index + next);
+    // the text was reassembled from several lines: blame the whole literal
+    let hi = lexer.index + next;
+    let string_val = process_escapes_into(
+        &string_val.chars().collect::<Vec<_>>(),
+        ctx,
+        file_id,
+        |_| lexer.span(lo, hi),
+    );
+    emit_string_token(lexer, string_val, lo, hi);
 }
 
 fn emit_string_token(lexer: &mut Lexer, s: String, lo: usize, hi: usize) {
     lexer.tokens.push(Token {
         kind: TokenKind::StringLit(s),
-        span: Span { lo, hi },
+        span: lexer.span(lo, hi),
     });
     lexer.index = hi;
 }
